@@ -14,7 +14,7 @@ Oracle bookkeeping (independent of the Lean step model; it only reads the implem
   single-writer discipline: a write through a view of a block that another view has written since (a stale
             cache) voids every promise about that block (`tainted`), as do raw byte blocks supplied by the history.
 """
-import struct
+import os, struct
 from .. import core, gen
 from ..runner import Spec, Part
 
@@ -671,7 +671,9 @@ class Main(Part):
     name = "main"
     harness = "bloom_h"
     model_exe = "dsmodel_bloom"
-    family = "bloom"
+    # C15_MODEL_FIXED=1: compare against the model with the three proposed repairs switched on (used to validate
+    # proposed_fixes/C15-*.patch on a patched scratch tree; never set for the real check)
+    family = "bloomfixed" if os.environ.get("C15_MODEL_FIXED") else "bloom"
     timeout = 120
 
     def generate(self, rng, tier):
